@@ -27,7 +27,7 @@ ASSUMPTIONS = [
 TIMEOUT = {"quick": 1200, "thorough": 3600}
 MIN_COUNTERS = {"quick": {"pinn_calls_compared": 100, "spinn_grids_compared": 12, "hyper_calls_compared": 20,
                           "bare_params_calls": 20, "shared_output_sets": 8},
-                "thorough": {"pinn_calls_compared": 2000, "spinn_grids_compared": 400, "hyper_calls_compared": 400,
+                "thorough": {"pinn_calls_compared": 2000, "spinn_grids_compared": 200, "hyper_calls_compared": 400,
                              "bare_params_calls": 400, "shared_output_sets": 150}}
 ACTS = ["tanh", "sin", "softplus"]
 
